@@ -239,18 +239,30 @@ struct SysSide {
 }
 
 /// a fresh System on a fresh thread; an agent task on that thread executes closures for the coordinator
-fn start_system(userun: bool, reuse: bool) -> SysSide {
+fn start_system(userun: bool, reuse: bool, stop_in_block_on: bool) -> Result<SysSide, String> {
     let (info_tx, info_rx) = mpsc::channel();
     let (ret_tx, ret_rx) = mpsc::channel();
     thread::spawn(move || {
         if reuse {
             // the thread has already hosted a System (run to completion and dropped): nothing of it may leak into the next one
             let first = System::new();
-            first.block_on(async {
-                actix_rt::spawn(async {});
-            });
-            System::current().stop_with_code(9);
-            let _ = first.run_with_code();
+            if stop_in_block_on {
+                // the stop is issued AND handled while the thread is still inside `SystemRunner::block_on`: `run_with_code`, entered
+                // afterwards, must return its code at once
+                first.block_on(async {
+                    actix_rt::spawn(async {});
+                    System::current().stop_with_code(9);
+                    tokio::time::sleep(Duration::from_millis(5)).await;
+                });
+            } else {
+                first.block_on(async {
+                    actix_rt::spawn(async {});
+                });
+                System::current().stop_with_code(9);
+            }
+            if !matches!(first.run_with_code(), Ok(9)) {
+                IDENT_BAD.store(true, std::sync::atomic::Ordering::SeqCst);
+            }
         }
         let runner = System::new();
         let sys = System::current();
@@ -284,8 +296,11 @@ fn start_system(userun: bool, reuse: bool) -> SysSide {
         };
         let _ = ret_tx.send(r);
     });
-    let (sys, agent, thread) = info_rx.recv().unwrap();
-    SysSide { sys, sys_gate: std::cell::RefCell::new(None), agent, ret_rx, thread }
+    // (a System that was run before on that thread must have come to its end by now)
+    let (sys, agent, thread) = info_rx
+        .recv_timeout(Duration::from_secs(10))
+        .map_err(|_| "PRE-RUN-HANG the System run earlier on the system's thread never returned from run_with_code".to_string())?;
+    Ok(SysSide { sys, sys_gate: std::cell::RefCell::new(None), agent, ret_rx, thread })
 }
 
 impl SysSide {
@@ -369,7 +384,10 @@ fn run_case(userun: bool, seed: u64, ops: &[Op]) -> String {
     let profile = seed % 4; // 0 tight, 1 fast, 2 mixed, 3 slow
     let sh = Arc::new(Shared::default());
     IDENT_BAD.store(false, std::sync::atomic::Ordering::SeqCst);
-    let side = start_system(userun, seed % 3 == 0);
+    let side = match start_system(userun, seed % 3 == 0, seed % 2 == 0) {
+        Ok(s) => s,
+        Err(e) => return e,
+    };
     // Arbiter::new only needs a System registered on the calling thread
     System::set_current(side.sys.clone());
     let helper = Helper::new();
